@@ -4,6 +4,7 @@
 (*  [id, kind |-> "same", a, b]     report vs value in force / paired run vs run (exact)                                   *)
 (*  [id, kind |-> "cov", cov, cap, elig]   unsaturated coverage: 1 if elig <= cap else cap / elig                           *)
 (*  [id, kind |-> "sum", total, parts]     eligible = sum of the targeted compartments                                       *)
+(*  [id, kind |-> "le", a, b]              coverage in force <= saturation level in force at that time                         *)
 EXTENDS Big, Integers, Sequences, TLC, Json, IOUtils, FiniteSets
 Trace == ndJsonDeserialize(IOEnv.TRACE_FILE)
 VARIABLES i, bad
@@ -26,6 +27,7 @@ Failing(e) ==
    IF e.kind = "value" THEN (IF ValueOK(e) THEN {} ELSE {"ProgValue"})
    ELSE IF e.kind = "same" THEN (IF e.a = e.b THEN {} ELSE {"Mismatch"})
    ELSE IF e.kind = "cov" THEN (IF CovOK(e) THEN {} ELSE {"Coverage"})
+   ELSE IF e.kind = "le" THEN (IF SLe(e.a, SAdd(e.b, Tol(e.b, K1e9, 8))) THEN {} ELSE {"Saturation"})      \* coverage in force never exceeds the saturation level of that year
    ELSE (IF SClose(e.total, SSumSeq(e.parts), K1e9, 8 + Len(e.parts)) THEN {} ELSE {"Eligible"})
 Init == i = 1 /\ bad = {}
 Next == /\ i <= Len(Trace)
